@@ -3,6 +3,7 @@
 job = dict(ctr="module"|"bundle", ops=[...], names=[observed alphabet], export=bool)
 ops:  ["set", name, val] | ["add", val, name|None] | ["del", name] | ["elab"]
 val:  [kind, own_name|None]   kinds: port sig inst arr ibun bun  (HDL)  str none int mod gen bdef func (non-HDL)
+      signals with a direction: in out inout (h.Input() ..: port-visible), sigin sigout siginout (h.Signal(direction=..): INTERNAL)
 Every op creates a FRESH value; its identity is the op index.
 
 observation after each op (property-level only):
@@ -42,6 +43,20 @@ def mkval(spec):
         return h.Port(**kw)
     if kind == "sig":
         return h.Signal(**kw)
+    # Signals whose `direction` is not NONE: port constructors (port-visible), and INTERNAL signals that carry a direction
+    PD = h.signal.PortDir
+    if kind == "in":
+        return h.Input(**kw)
+    if kind == "out":
+        return h.Output(**kw)
+    if kind == "inout":
+        return h.Inout(**kw)
+    if kind == "sigin":
+        return h.Signal(direction=PD.INPUT, **kw)
+    if kind == "sigout":
+        return h.Signal(direction=PD.OUTPUT, **kw)
+    if kind == "siginout":
+        return h.Signal(direction=PD.INOUT, **kw)
     if kind == "inst":
         return h.Instance(of=Leaf, **kw)
     if kind == "arr":
@@ -56,6 +71,8 @@ def mkval(spec):
         return None
     if kind == "int":
         return 7
+    if kind == "tup":         # plain class-body data, e.g. lanes = ("a", "b")
+        return ("a", "b")
     if kind == "mod":
         return h.Module(name="NotAnAttr")
     if kind == "gen":
@@ -148,14 +165,15 @@ def export_names(c, is_mod, names):
         return dict(err=exc_info(e))
 
 
-def do_history(job):
+def do_history(job, c=None, ids=None, keep=None, base=0):
     is_mod = job["ctr"] == "module"
-    c = h.Module(name="Edited") if is_mod else h.Bundle(name="Edited")
-    ids = {}
-    keep = []           # keep every created object alive: id() must stay unique
+    if c is None:
+        c = h.Module(name="Edited") if is_mod else h.Bundle(name="Edited")
+    ids = {} if ids is None else ids
+    keep = [] if keep is None else keep           # keep every created object alive: id() must stay unique
     steps = []
     names = job["names"]
-    for k, op in enumerate(job["ops"]):
+    for k, op in enumerate(job["ops"], start=base):
         acc, err = True, None
         try:
             if op[0] == "set":
@@ -218,6 +236,9 @@ def do_world(job):
                     err = dict(cls="ReturnValue", msg="add() did not return its argument")
             elif op[0] == "vis":
                 objs[op[1]].vis = h.signal.Visibility.PORT if op[2] else h.signal.Visibility.INTERNAL
+            elif op[0] == "dir":
+                objs[op[1]].direction = dict(none=h.signal.PortDir.NONE, input=h.signal.PortDir.INPUT,
+                                             output=h.signal.PortDir.OUTPUT, inout=h.signal.PortDir.INOUT)[op[2]]
             elif op[0] == "name":
                 objs[op[1]].name = op[2]
             elif op[0] == "del":
@@ -269,6 +290,26 @@ def do_classbody(job):
     return res
 
 
+def do_classhist(job):
+    """Class-style definition (items may bind public names to plain data), then an edit history on the result.
+    Identities: items 0..len(items)-1, then one per operation."""
+    is_mod = job["ctr"] == "module"
+    ids, keep, items = {}, [], []
+    for k, (key, spec) in enumerate(job["items"]):
+        v = mkval(spec)
+        keep.append(v)
+        if cls_of(v) != 6:
+            ids[id(v)] = k
+        items.append((key, v))
+    try:
+        c = (h.module if is_mod else h.bundle)(mk_class("Edited", items))
+    except Exception as e:
+        return dict(cls=dict(acc=False, err=exc_info(e)), steps=[])
+    res = dict(cls=dict(acc=True, obs=observe(c, is_mod, ids, job["names"])))
+    res.update(do_history(job, c=c, ids=ids, keep=keep, base=len(items)))
+    return res
+
+
 def do_static(job):
     """History-independent rejections: sub-classing, decorated classes with bases, a class as Module name."""
     out = {}
@@ -306,7 +347,7 @@ def do_static(job):
 
 
 def handler(p):
-    f = dict(history=do_history, classbody=do_classbody, static=do_static, world=do_world)[p["kind"]]
+    f = dict(history=do_history, classbody=do_classbody, classhist=do_classhist, static=do_static, world=do_world)[p["kind"]]
     return dict(results=[f(j) for j in p["jobs"]])
 
 
